@@ -51,8 +51,30 @@ let res_to_string f = function
   | Panic -> "PANIC"
   | OutOfFuel -> "HANG"
 
+(* ---- wire messages ---- *)
+let b01 b = if b then "1" else "0"
+let dec_n n = string_of_int (int_of_n n)
+let string_of_rdata = function
+  | RAddr o -> "A:" ^ hex_of_bytes o
+  | RPtr a -> "P:" ^ hex_of_bytes a
+  | RSrv (p, w, po, h) -> Printf.sprintf "S:%s,%s,%s,%s" (dec_n p) (dec_n w) (dec_n po) (hex_of_bytes h)
+  | RTxt t -> "T:" ^ hex_of_bytes t
+  | RHinfo (c, o) -> "H:" ^ hex_of_bytes c ^ "," ^ hex_of_bytes o
+  | RNsec (n, b) -> "N:" ^ hex_of_bytes n ^ "," ^ hex_of_bytes b
+let string_of_rr r =
+  Printf.sprintf "%s %s %s %s %s %s" (hex_of_bytes r.r_name) (dec_n r.r_type) (dec_n r.r_class)
+    (b01 r.r_flush) (dec_n r.r_ttl) (string_of_rdata r.r_data)
+let string_of_rrs l = String.concat " ; " (List.map string_of_rr l)
+let string_of_msg m =
+  let qs = String.concat " ; " (List.map (fun q ->
+    Printf.sprintf "%s %s %s %s" (hex_of_bytes q.q_name) (dec_n q.q_type) (dec_n q.q_class) (b01 q.q_flush)) m.m_questions) in
+  Printf.sprintf "%s %s %s %s %s %s | %s | %s | %s | %s" (dec_n m.m_id) (dec_n m.m_flags) (dec_n m.m_nq)
+    (dec_n m.m_nan) (dec_n m.m_nns) (dec_n m.m_nar) qs (string_of_rrs m.m_answers)
+    (string_of_rrs m.m_authorities) (string_of_rrs m.m_additionals)
+
 let run_case (line : string) : string =
   match String.split_on_char ' ' line with
+  | [ "dec"; b ] -> res_to_string string_of_msg (decode (bytes_of_hex b))
   | [ "txt_new"; ps ] ->
     res_to_string
       (fun (stored, b) -> string_of_props stored ^ " " ^ hex_of_bytes b)
@@ -124,6 +146,33 @@ let mon_c16 (case : string list) (result : string) : string =
     else "PASS"
   | _ -> "BADCASE"
 
+(* C01: the decode outcome is a message or an error; counts and names bounded by the datagram *)
+let mon_c01 (case : string list) (result : string) : string =
+  match case with
+  | [ "dec"; hx ] ->
+    let n = (if hx = "-" then 0 else String.length hx / 2) in
+    if result = "ERR" then "PASS"
+    else if starts_with result "OK " then begin
+      let secs = String.split_on_char '|' (String.sub result 3 (String.length result - 3)) in
+      match secs with
+      | [ _; q; an; ns; ar ] ->
+        let items s = List.filter (fun x -> String.trim x <> "") (String.split_on_char ';' s) in
+        let nrec = List.length (items an) + List.length (items ns) + List.length (items ar) in
+        let nq = List.length (items q) in
+        let name_ok it =
+          match String.split_on_char ' ' (String.trim it) with
+          | nm :: _ -> (String.length nm) / 2 <= 2 * n * (n + 1)
+          | [] -> true in
+        if n < 12 then "FAIL message from less than a header"
+        else if nrec * 11 > n - 12 then "FAIL more records than the datagram can hold"
+        else if nq * 5 > n - 12 then "FAIL more questions than the datagram can hold"
+        else if not (List.for_all name_ok (items q @ items an @ items ns @ items ar)) then "FAIL name longer than bound"
+        else "PASS"
+      | _ -> "BAD result format"
+    end
+    else "FAIL decoding did not end with a message or an error: " ^ result
+  | _ -> "BADCASE"
+
 let run_monitor (line : string) : string =
   (* "mon <ID> <case...> => <result...>" *)
   let sep = " => " in
@@ -137,6 +186,7 @@ let run_monitor (line : string) : string =
     (try
       (match id with
        | "C16" -> mon_c16 case result
+       | "C01" -> mon_c01 case result
        | _ -> "BADCASE")
      with _ -> "BAD monitor exception")
   | _ -> "BADCASE"
